@@ -29,6 +29,11 @@ def one_workload(ctx, idx, memkb, scratch, depth, torn, nest_every):
     ops = os.path.join(ctx.work, "crash-%d.ops" % idx)
     env = dict(vlib.GOENV)
     env["VERIF_SEED"] = str(ctx.seed * 1000 + idx)
+    if ctx.prop == "C20" and idx % 2 == 1:
+        # growth without checkpoints in a large pool: heap pages that never reach the db file before the first crash, so
+        # that recovery re-creates whole chains of pages (and can be interrupted between their writes)
+        env["VERIF_CRASH_MODE"] = "grow"
+        memkb = 512
     rc, out = vlib.run([vlib.VDRIVE, "crash", "run", wdir, tr, ops, str(memkb)], cwd=ctx.work, env=env, timeout=300)
     if rc != 0:
         raise Inconclusive("crash run failed rc=%d\n%s" % (rc, out[-2000:]))
